@@ -621,8 +621,11 @@ func (c *decoratorController) syncParentObject(parent *unstructured.Unstructured
 		(syncResult.Finalized && controllerutil.ContainsFinalizer(parent, c.finalizer.Name)) {
 		updatedParent.SetLabels(parentLabels)
 		updatedParent.SetAnnotations(parentAnnotations)
-		if err := unstructured.SetNestedField(updatedParent.Object, syncResult.Status, "status"); err != nil {
-			return err
+		if syncResult.Status != nil {
+			// Don't turn an absent status into an explicit null.
+			if err := unstructured.SetNestedField(updatedParent.Object, syncResult.Status, "status"); err != nil {
+				return err
+			}
 		}
 
 		if statusChanged && parentClient.HasSubresource("status") {
